@@ -136,7 +136,11 @@ pub fn cmd_version20(a: &Args) {
 			for line in text.lines() {
 				match parse_tlc_line(line) {
 					Some((tag, v)) if tag == "VSTR" => {
-						let x: VStr = serde_json::from_value(v).unwrap();
+						let x0: VStr = serde_json::from_value(v).unwrap();
+						// the model's "~": a character outside the grammar, concretised in several ways
+						let subs: Vec<char> = if x0.s.contains('~') { vec!['\0', '\n', '\t', '\r', '\u{a0}', '\u{3000}', '\u{feff}', '_', ','] } else { vec!['~'] };
+						for sub in subs {
+						let x = VStr { s: x0.s.replace('~', &sub.to_string()), parse: x0.parse.clone() };
 						sink.count(crate::util::fnv(x.s.as_bytes()), !x.parse.is_empty());
 						sink.sample(|| json!({"string": x.s, "model_parse": x.parse}));
 						let r1 = guard(|| slippi::Version::from_str(&x.s));
@@ -158,6 +162,7 @@ pub fn cmd_version20(a: &Args) {
 								sink.report(&viol("parse_string", &format!("{},{}", name, cls), "mismatch", format!("{:?} parsed as {:?}, model {:?}", x.s, got, x.parse)), &|| json!({"s": x.s}));
 							}
 						}
+						}
 					}
 					Some((tag, v)) if tag == "VGRID" => {
 						let g: VGrid = serde_json::from_value(v).unwrap();
@@ -175,7 +180,7 @@ pub fn cmd_version20(a: &Args) {
 	}
 	// (4) seeded random strings: accepted iff three dot-separated integers 0..255 (decimal digits, optional +)
 	let mut r = crate::util::Rng::new(seed ^ 0x5712);
-	let chars: Vec<char> = "0123456789.+- a\u{0660}\t".chars().collect();
+	let chars: Vec<char> = "0123456789.+- a\u{0660}\t\0\n\u{feff}".chars().collect();
 	for _ in 0..a.num("random-strings", 20000) {
 		let len = r.below(12) as usize;
 		let s: String = (0..len).map(|_| *r.pick(&chars)).collect();
@@ -216,7 +221,7 @@ pub fn cmd_version20(a: &Args) {
 	}
 	// (5) structured strings around the grammar's edges: values above 255, leading zeros, signs, blanks
 	let pieces: Vec<String> = {
-		let mut v: Vec<String> = ["", "0", "00", "000", "05", "005", "0005", "+5", "+0", "++5", "-0", "-1", " 5", "5 ", "0x1", "1e1", "\u{0665}", "255", "256", "257", "299", "300", "511", "512", "999", "1000", "65536", "4294967296", "18446744073709551616", "+255", "+256", "2 5"]
+		let mut v: Vec<String> = ["", "0", "00", "000", "05", "005", "0005", "+5", "+0", "++5", "-0", "-1", " 5", "5 ", "0x1", "1e1", "\u{0665}", "255", "256", "257", "299", "300", "511", "512", "999", "1000", "65536", "4294967296", "18446744073709551616", "+255", "+256", "2 5", "5\0", "\05", "5\n", "\n5", "\u{feff}5", "5\r\n", "5\u{a0}"]
 			.iter()
 			.map(|s| s.to_string())
 			.collect();
